@@ -424,7 +424,7 @@ func check(prop, tier string) int {
 				out := filepath.Join(dir, fmt.Sprintf("w%d-%d.json", w, round))
 				cur := filepath.Join(dir, fmt.Sprintf("w%d.cur", w))
 				code, se := runWorker(map[string]string{"VSIM_MODE": "explore", "VSIM_PROP": prop, "VSIM_SEED": fmt.Sprint(wseed), "VSIM_FROM": fmt.Sprint(from),
-					"VSIM_COUNT": "1000000000", "VSIM_BUDGET_MS": fmt.Sprint(left.Milliseconds()), "VSIM_OUT": out, "VSIM_CUR": cur}, left+3*time.Minute)
+					"VSIM_PARAMS": fmt.Sprintf(`{"tier":%q}`, tier), "VSIM_COUNT": "1000000000", "VSIM_BUDGET_MS": fmt.Sprint(left.Milliseconds()), "VSIM_OUT": out, "VSIM_CUR": cur}, left+3*time.Minute)
 				var r Result
 				if err := readJSON(out, &r); err != nil {
 					// worker died mid-episode
